@@ -23,6 +23,8 @@ SLICE = 8              # AsynConn.timeout = 1 s: one receive slice
 RULE = ('one real StringIO (end_of_line "\\n", "\\r\\n" or ";") or BytesIO module on a real AsynTcp connection whose socket '
         'is a scripted fake (frappy.lib.asynconn.socket/select replaced): 2..4 caller threads with programs of '
         'communicate / writeline / multicomm / pause, optionally the real Module.__pollThread of the communicator, a '
+        'wait_before = 0 or > 0 (then also multi-line commands, written line by line with a sleep in front of each, and '
+        'late replies that arrive inside the pause in front of the first line), a '
         'device directive per command (reply delay, chunking incl. cuts inside the end-of-line, garbage before/after, '
         'late reply, silence, partial reply, disconnect before/inside/after the reply), k refused connection attempts, '
         'registered reconnect callbacks (return True / False / None / raise), and a thread schedule at '
@@ -41,7 +43,9 @@ ASSUMPTIONS = [
     'virtual time in ticks of 1/8 s; the clock advances only when every thread is blocked (dsched); data scheduled by the '
     'device for time t is readable at every time >= t; one recv returns one scheduled chunk',
     'the device closes a connection by EOF (recv returns b""); a send on a connection closed by the peer is silently lost',
-    'wait_before = 0, identification = [] (checkHWIdent is empty), timeout > 0, no write_is_connected calls',
+    'wait_before in {0, 1/8, 1/4, 1/2 s} (one value per communicator); a multi-line command (lines joined by the end of '
+    'line) is generated only with wait_before > 0 (only then the code splits it); identification = [] (checkHWIdent is '
+    'empty), timeout > 0, no write_is_connected calls',
     'the poll thread is the real Module.__pollThread serving the communicator only; the model treats its own timing as '
     'arbitrary (it may call read_is_connected at any time) and follows only what read_is_connected does',
     'triggerPoll.set() (called by the trigger_polls reconnect callback) is not a scheduling point',
@@ -88,6 +92,12 @@ def cmd_text(xid):
     return f'c{xid}'
 
 
+def full_text(x, eol):
+    """command text of an exchange: the lines in front of the last one (only generated with wait_before > 0) and the
+    last line, joined by the end of line"""
+    return eol.join([cmd_text(p['id']) for p in x.get('pre', [])] + [cmd_text(x['id'])])
+
+
 def run_case(case):
     if case.get('rx'):
         return c16rx.run_rx(case)
@@ -113,11 +123,10 @@ def run_case(case):
     exch = {}
     for prog in case['threads']:
         for op in prog:
-            if op[0] in ('comm', 'write'):
-                exch[op[1]['id']] = op[1]
-            elif op[0] == 'multi':
-                for x in op[1]:
-                    exch[x['id']] = x
+            for x in ([op[1]] if op[0] in ('comm', 'write') else op[1] if op[0] == 'multi' else []):
+                exch[x['id']] = x
+                for pl in x.get('pre', []):
+                    exch[pl['id']] = pl
     refuse = list(case.get('refuse', []))
     log = {'connects': [], 'sends': [], 'chunks': [], 'recvs': [], 'cbs': [], 'ann': [], 'polls': [], 'closed': [], 'ev': []}
     conns = []
@@ -286,6 +295,7 @@ def run_case(case):
         io.initModule()
         io.timeout = case['timeout'] / TICK
         io.pollinterval = case['interval'] / TICK
+        io.wait_before = case.get('wait', 0) / TICK
         io.writeDict.clear()
         if io.errors:
             raise RuntimeError(f'module errors {io.errors}')
@@ -343,18 +353,19 @@ def run_case(case):
                 elif kind == 'comm':
                     x = op[1]
                     if line:
-                        r = io.communicate(cmd_text(x['id']))
+                        r = io.communicate(full_text(x, case.get('eol', '\n')))
                     else:
                         r = io.communicate(cmd_text(x['id']).encode(), x['n'])
                     rec['res'] = 'ok'
                     rec['replies'] = [enc_reply(r)]
                 elif kind == 'write':
-                    io.writeline(cmd_text(op[1]['id']))
+                    io.writeline(full_text(op[1], case.get('eol', '\n')))
                     rec['res'] = 'ok'
                     rec['replies'] = []
                 elif kind == 'multi':
                     if line:
-                        reqs = [(cmd_text(x['id']), not x.get('noreply', False), x['delay'] / TICK) for x in op[1]]
+                        reqs = [(full_text(x, case.get('eol', '\n')), not x.get('noreply', False), x['delay'] / TICK)
+                                for x in op[1]]
                     else:
                         reqs = [(cmd_text(x['id']).encode(), x['n'], x['delay'] / TICK) for x in op[1]]
                     r = io.multicomm(reqs)
@@ -436,22 +447,27 @@ def enc_bytes(bs):
     return gal.lst(list(bs), gal.N)
 
 
-def enc_exch(x, noreply=False):
-    emit = gal.lst(x['emit'], lambda e: f'({gal.z(e[0])}, {enc_bytes(e[1])})')
-    return ('{| x_id := %s; x_emit := %s; x_close := %s; x_n := %s; x_delay := %s; x_noreply := %s |}' % (
-        gal.nat(x['id']), emit, gal.option(x.get('close'), gal.z), gal.nat(x.get('n', 0)), gal.z(x.get('delay', 0)),
-        gal.boolean(noreply or bool(x.get('noreply', False)))))
+def enc_emit(em):
+    return gal.lst(em, lambda e: f'({gal.z(e[0])}, {enc_bytes(e[1])})')
 
 
-def enc_op(op):
+def enc_exch(x, noreply=False, wait=0):
+    pre = gal.lst(x.get('pre', []), lambda p: f"({gal.nat(p['id'])}, {enc_emit(p['emit'])}, {gal.option(p.get('close'), gal.z)})")
+    return ('{| x_id := %s; x_emit := %s; x_close := %s; x_n := %s; x_delay := %s; x_noreply := %s; x_wait := %s; '
+            'x_pre := %s |}' % (
+                gal.nat(x['id']), enc_emit(x['emit']), gal.option(x.get('close'), gal.z), gal.nat(x.get('n', 0)),
+                gal.z(x.get('delay', 0)), gal.boolean(noreply or bool(x.get('noreply', False))), gal.z(wait), pre))
+
+
+def enc_op(op, wait=0):
     if op[0] == 'pause':
         return f'(OPause {gal.z(op[1])})'
     if op[0] == 'comm':
-        return f'(OSingle {enc_exch(dict(op[1], noreply=False))})'
+        return f'(OSingle {enc_exch(dict(op[1], noreply=False), wait=wait)})'
     if op[0] == 'write':
-        return f'(OSingle {enc_exch(op[1], noreply=True)})'
+        return f'(OSingle {enc_exch(op[1], noreply=True, wait=wait)})'
     if op[0] == 'multi':
-        return f'(OMulti {gal.lst(op[1], enc_exch)})'
+        return f'(OMulti {gal.lst(op[1], lambda x: enc_exch(x, wait=wait))})'
     raise ValueError(op[0])
 
 
@@ -497,7 +513,7 @@ def encode_sys(case, obs):
             'c_poller := %s; c_trace := [%s]; c_outs := %s; c_sends := %s; c_cblog := %s; c_ann := %s; '
             'c_connected := %s; c_conn := %s; c_nconn := %s; c_cbkeys := %s; c_lasterr := %s; c_lastatt := %s |}' % (
                 enc_mode(case), gal.z(case['timeout']), gal.z(case['interval']),
-                gal.lst(case['threads'], lambda p: gal.lst(p, enc_op)), gal.lst(case.get('refuse', []), gal.boolean),
+                gal.lst(case['threads'], lambda p: gal.lst(p, lambda o: enc_op(o, case.get('wait', 0)))), gal.lst(case.get('refuse', []), gal.boolean),
                 gal.lst(case.get('cbs', []), lambda c: f'({gal.nat(c[0])}, {CBK[c[1]]})'),
                 gal.boolean(bool(case.get('poller'))), '; '.join(steps), outs, sends,
                 gal.lst([e[1] for e in log['cbs']], gal.nat), gal.lst([e[1] for e in log['ann'] if not e[2]], gal.boolean),
@@ -528,7 +544,7 @@ def reply_bytes(case_mode, eol, xid):
     return f'R{xid:03d}'.encode()
 
 
-def rand_exch(rng, mode, eol, timeout, xid, in_multi):
+def rand_exch(rng, mode, eol, timeout, xid, in_multi, wait=0):
     own = reply_bytes(mode, eol, xid)
     x = {'id': xid, 'emit': [], 'close': None, 'n': 4, 'delay': 0, 'noreply': False, 'kind': 'normal'}
     r = rng.random()
@@ -555,7 +571,8 @@ def rand_exch(rng, mode, eol, timeout, xid, in_multi):
         x['emit'] = chunks(own, d0) + [[rng.choice([6, 10, 18, 30]), list(junk)]]
     elif r < 0.81:
         x['kind'] = 'late'
-        x['emit'] = chunks(own, timeout + rng.choice([1, 4, 9]))
+        # with wait_before: the late reply often arrives inside the pause in front of the next command
+        x['emit'] = chunks(own, timeout + (rng.choice([1, 1, wait, wait, 4, 9]) if wait else rng.choice([1, 4, 9])))
     elif r < 0.86:
         x['kind'] = 'silent'
     elif r < 0.9:
@@ -598,6 +615,19 @@ def rand_case(rng):
     interval = rng.choice([8, 16, 32, 80])
     n = rng.choice([2, 2, 3, 3, 4])
     ids = iter(range(1, 1000))
+    wait = rng.choice([0, 0, 0, 1, 2, 2, 4])
+    _rand_exch = globals()['rand_exch']
+
+    def rand_exch(rng, mode, eol, timeout, xid, in_multi):     # local version: adds wait_before and multi-line commands
+        x = _rand_exch(rng, mode, eol, timeout, xid, in_multi, wait)
+        if wait and mode == 'line' and rng.random() < 0.3:
+            # a multi-line command: split by the code and written line by line, a sleep of wait_before in front of each
+            x['pre'] = []
+            for _ in range(rng.choice([1, 1, 2])):
+                pid = next(ids)
+                em = [[rng.choice([0, 1, wait]), list(f'e{pid}'.encode() + eol.encode('latin-1'))]] if rng.random() < 0.3 else []
+                x['pre'].append({'id': pid, 'emit': em, 'close': None})
+        return x
     threads = []
     for _ in range(n):
         prog = []
@@ -631,6 +661,8 @@ def rand_case(rng):
                 prog.insert(0, ['pause', rng.choice([1, 1, 2])])
     case = {'mode': mode, 'timeout': timeout, 'interval': interval, 'refuse': refuse, 'cbs': cbs, 'poller': poller,
             'threads': threads, 'sched': rand_sched(rng), 'tail': rng.choice([0, 0, 40, 100]) if poller else 0}
+    if wait:
+        case['wait'] = wait
     if mode == 'line':
         case['eol'] = eol
     return case
@@ -654,11 +686,21 @@ def _first_frame(line, eol, n, buf):
 
 
 def _exchanges(op):
+    """the lines a call writes, in order; a line in front of the last line of a multi-line command expects no reply of
+    its own; 'first' of the last line = id of the first line of its command (the command is being written from there)"""
     if op[0] in ('comm', 'write'):
-        return [dict(op[1], noreply=(op[0] == 'write'))]
-    if op[0] == 'multi':
-        return op[1]
-    return []
+        xs = [dict(op[1], noreply=(op[0] == 'write'))]
+    elif op[0] == 'multi':
+        xs = op[1]
+    else:
+        return []
+    out = []
+    for x in xs:
+        pre = x.get('pre', [])
+        for pl in pre:
+            out.append({'id': pl['id'], 'noreply': True, 'delay': 0, 'n': 0, 'preline': True})
+        out.append(dict(x, first=pre[0]['id']) if pre else x)
+    return out
 
 
 def oracle(case, obs):
@@ -700,10 +742,13 @@ def oracle(case, obs):
         if data is None:
             eof_at[cid] = min(arr, eof_at.get(cid, arr))
 
-    def post_send_stream(k):
+    def post_send_stream(k, k0=None):
         """chunks that arrive on the connection after send k: scheduled by this command, or scheduled earlier with a
-        later arrival time; in arrival order"""
+        later arrival time; in arrival order.  For the last line of a multi-line command k0 is the send of its first
+        line: the command is written from there on"""
         cid, ts, w, xid, data, mark = sends[k]
+        if k0 is not None and sends[k0][0] == cid:
+            ts, mark = sends[k0][1], sends[k0][5]
         nxt = len(chunks)
         for sd in sends[k + 1:]:
             if sd[0] == cid:
@@ -717,7 +762,7 @@ def oracle(case, obs):
         """('frame', bytes, arrival) | ('eof', None, arrival) | ('none', None, last arrival or None)"""
         buf = b''
         last = None
-        for arr, i, data in post_send_stream(k):
+        for arr, i, data in post_send_stream(k, send_by_x.get(x.get('first'))):
             if arr > upto:
                 break
             last = arr
@@ -757,6 +802,15 @@ def oracle(case, obs):
             # ---- order of the commands inside a transaction
             if [x['id'] for x in sent] != [x['id'] for x in xs[:len(sent)]]:
                 fail('transaction-order', f'{me} op {j}: commands written out of order')
+            # ---- wait_before: every line is written at least wait_before after the call started / the previous line
+            wait = case.get('wait', 0)
+            if wait:
+                prev = rec['t0']
+                for n in my_sends:
+                    if ev[n][3] < prev + wait:
+                        fail('wait-before-not-honoured', f"{me} op {j}: line c{ev[n][2]} written at {ev[n][3]}, less than "
+                             f"wait_before = {wait} ticks after {prev}")
+                    prev = ev[n][3]
             # ---- delays of a transaction
             if op[0] == 'multi':
                 for q, x in enumerate(sent):
@@ -919,6 +973,13 @@ def outcome_labels(case, obs):
         return c16rx.outcome_labels_rx(case, obs)
     labs = {case['mode']}
     log = obs['log']
+    if case.get('wait'):
+        labs.add('wait_before>0')
+        if any(x.get('pre') for prog in case['threads'] for op in prog
+               for x in ([op[1]] if op[0] in ('comm', 'write') else op[1] if op[0] == 'multi' else [])):
+            labs.add('multi-line-command')
+        if any(e[0] == 'flush' and e[2] == 'data' for e in log['ev']):
+            labs.add('stale-data-flushed-after-wait_before')
     for rs in obs['results']:
         for r in rs:
             if r['op'] != 'pause':
